@@ -1242,7 +1242,22 @@ impl ManageConnection for ServerPool {
 
     /// Synchronously determine if the connection is no longer usable, if possible.
     fn has_broken(&self, conn: &mut Self::Connection) -> bool {
-        conn.is_bad()
+        if conn.is_bad() {
+            return true;
+        }
+
+        // Mirrors replay a byte stream, they hold no client state to protect.
+        if self.address.role == Role::Mirror {
+            return false;
+        }
+
+        // A connection that comes back still inside a transaction, in copy mode,
+        // with unread data or with session state that was not reset was released
+        // without `checkin_cleanup` (client error path): never hand it to another client.
+        conn.in_transaction()
+            || conn.in_copy_mode()
+            || conn.is_data_available()
+            || conn.needs_cleanup()
     }
 }
 
